@@ -174,9 +174,10 @@ class Sigma:
                                                    z3.And(0 <= self.hnum(s, h), self.hnum(s, h) < N,
                                                           self.asub(self.hnum(s, h)) == s,
                                                           self.ahid(self.hnum(s, h)) == h))))
-        # subnet firewall has an entry for every connected ordered pair of distinct subnets
+        # subnet firewall has an entry in both directions for every connected pair of distinct subnets
         ax.append(self.forall_range(nS, lambda a: self.forall_range(
-            nS, lambda b: z3.Implies(z3.And(ival(a) != ival(b), self.connected(a, b)), self.fwdom(ival(a), ival(b))), "sb"), "sa"))
+            nS, lambda b: z3.Implies(z3.And(ival(a) != ival(b), z3.Or(self.connected(a, b), self.connected(b, a))),
+                                     self.fwdom(ival(a), ival(b))), "sb"), "sa"))
         # sensitive hosts are valid addresses
         ax.append(self.forall_range(self.nSens, lambda j: self.valid_addr(self.ssub(ival(j)), self.shid(ival(j))), "sj"))
         ax.append(z3.Implies(self.step_limit_set, self.step_limit > 0))
@@ -437,3 +438,10 @@ def host_pre(sig, a, row):
 
 def rmax(a, b):
     return z3.If(a >= b, a, b)
+
+
+def mask_dyn(L, row):
+    """row with its four dynamic cells (compromised, reachable, discovered, access) zeroed: two rows
+    agree on every configuration column iff their masks are equal (quantifier-free, extensional)"""
+    z = z3.RealVal(0)
+    return z3.Store(z3.Store(z3.Store(z3.Store(row, L.comp, z), L.reach, z), L.disc, z), L.access, z)
